@@ -5,24 +5,29 @@
    after [t]). *)
 From AwVerif Require Import Base.Prelude Model.Commit Proofs.CommitProofs Proofs.CommitAge.
 
-(* An event-write call (insert_one, replace, replace_last, delete, insert_many without
-   upserts) issued at an instant [t] more than 10 s after the last commit returns with
-   nothing pending: the write itself and everything buffered before it are durable. *)
+(* An event-write call — insert_one, replace, replace_last, delete, and insert_many of ANY
+   list (id-carrying events, id-less events or both; also an insert_many in which a statement
+   raises) — issued at an instant [t] more than 10 s after the last commit returns with
+   nothing pending: every write of the call and everything buffered before it are durable.
+   "The write is made durable before it returns" is about the CALL: since a00ceb1 insert_many
+   makes one conditional_commit decision for the whole batch (before it, the first id-carrying
+   event flushed and the rest of the same call stayed buffered; example
+   [C18_pre_fix_bulk_partly_flushed] below). *)
 Theorem C18_age_flush : forall lazy s o tro t,
-  single_block_op o -> map fst tro = expand o ->
+  event_write_op o -> map fst tro = expand o ->
   mono_from t tro -> t - last_commit s > MAX_AGE ->
   pending (run lazy s tro) = [].
 Proof. exact age_flush_op. Qed.
 Print Assumptions C18_age_flush.
 
-(* The same for one statement block of any script (each upsert of an insert_many is such a
-   block: the first one that is more than 10 s after the last commit flushes; the blocks
-   after it are then young). *)
-Theorem C18_age_flush_block : forall lazy s m k c1 c2 t,
-  writes_of_micro m <> [] \/ m = ExecMany [] ->
-  mono_from t [(m, c1); (CondCommit k, c2)] ->
+(* The shape behind it, for any script: a block of write statements (any number, none
+   included) followed by one conditional_commit, entered more than 10 s after the last
+   commit, leaves nothing pending. *)
+Theorem C18_age_flush_block : forall lazy s tpre k c t,
+  Forall is_write (map fst tpre) ->
+  mono_from t (tpre ++ [(CondCommit k, c)]) ->
   t - last_commit s > MAX_AGE ->
-  pending (run lazy s [(m, c1); (CondCommit k, c2)]) = [].
+  pending (run lazy s (tpre ++ [(CondCommit k, c)])) = [].
 Proof. exact age_flush_block. Qed.
 Print Assumptions C18_age_flush_block.
 
@@ -30,7 +35,8 @@ Print Assumptions C18_age_flush_block.
    after the last commit: the data at risk is bounded in age relative to the last flush
    (C06_bounded_loss bounds its count).  [pending_stamped] are the issued writes beyond
    the committed prefix, each with its issue instant.  Calls that raise are included (the rows of
-   a bulk insert that failed part-way pass the age test in its finally clause). *)
+   a bulk insert that failed part-way pass the age test in its finally clause).  With
+   C18_age_flush: a write is at risk only while it is young, and an old CALL leaves nothing. *)
 Theorem C18_age_bound : forall lazy c0 t0 h tr t,
   map fst tr = expand_all h -> mono_from t tr ->
   let s := run lazy (init c0 t0) tr in
@@ -55,6 +61,35 @@ Example C18_nonvacuous :
   pending_stamped [] (call 1 4000000 ++ call 2 8000000) (st (call 1 4000000 ++ call 2 8000000))
     = [(1, 4000000); (2, 8000000)].
 Proof. vm_compute. repeat split; try reflexivity; intros H; discriminate H. Qed.
+
+(* Non-vacuity of the call-level statement for a bulk write: a list of two id-carrying and
+   two new events, handed over 10.000001 s after the last commit with three young writes
+   already buffered: all seven writes are durable on return; at exactly 10 s none is. *)
+Example C18_bulk_nonvacuous :
+  let at_ t := mkClk t t t in
+  let o := InsertMany [10; 11] [12; 13] in
+  let young := [(Exec 1, at_ 1); (CondCommit 1, at_ 1); (ExecMany [2; 3], at_ 2); (CondCommit 2, at_ 2)] in
+  let call t := map (fun m => (m, at_ t)) (expand o) in
+  event_write_op o /\ mono_from 0 (young ++ call 10000001) /\
+  pending (run true (init [] 0) young) = [1; 2; 3] /\
+  pending (run true (init [] 0) (young ++ call 10000001)) = [] /\
+  recover (run true (init [] 0) (young ++ call 10000001)) = [1; 2; 3; 10; 11; 12; 13] /\
+  pending (run true (init [] 0) (young ++ call 10000000)) = [1; 2; 3; 10; 11; 12; 13].
+Proof. vm_compute. repeat split; try reflexivity; intros H; discriminate H. Qed.
+
+(* Sensitivity: the script insert_many had before a00ceb1 (every id-carrying event a counted
+   block of its own, [pre_a00ceb1_insert_many] in Proofs/CommitProofs.v; what tie B reads off
+   the source if that repair is reverted).  Three id-carrying events handed over 30 s after the
+   last commit: the first flushes and restarts the ten seconds, the other two are still
+   pending when the call returns.  With the script of [expand] nothing is pending. *)
+Example C18_pre_fix_bulk_partly_flushed :
+  let at_ t := mkClk t t t in
+  let tr_old := map (fun m => (m, at_ 30000000)) (pre_a00ceb1_insert_many [1; 2; 3] []) in
+  let tr_new := map (fun m => (m, at_ 30000000)) (expand (InsertMany [1; 2; 3] [])) in
+  mono_from 30000000 tr_old /\ 30000000 - last_commit (init [] 0) > MAX_AGE /\
+  pending (run true (init [] 0) tr_old) = [2; 3] /\ recover (run true (init [] 0) tr_old) = [1] /\
+  pending (run true (init [] 0) tr_new) = [] /\ recover (run true (init [] 0) tr_new) = [1; 2; 3].
+Proof. exact pre_fix_bulk_partly_flushed. Qed.
 
 (* Sensitivity: with the operands of the age subtraction reversed (the pre-repair code:
    last_commit - now) a write 30 s after the last flush stays pending. *)
